@@ -3,6 +3,7 @@
    c19_driver.py conc    < params.json     M simulations of every integrator type: sequential vs concurrent in threads
    c19_driver.py server  < params.json     built-in web server: snapshots served while integrating
    c19_driver.py torn    < params.json     hunt for snapshots served while reb_simulation_synchronize runs outside the mutex
+   c19_driver.py steps   < params.json     snapshots served while the user calls sim.steps(n) / sim.step() (no mutex taken)
    c19_driver.py fdclose < params.json     save/load of one simulation while another simulation's server thread closes descriptors twice
    c19_driver.py w512    < params.json     (avx512 build) two WHFast512 simulations alternated step by step vs separately
 Prints one JSON object on the last line of stdout."""
@@ -304,15 +305,17 @@ def mode_server(p):
         order = []
         recbytes = {}
         last_sd = [-1]
+        ncall = [0]
         def hb(sp):
             s = sp.contents
             # a user heartbeat that changes the simulation in TWO writes (radii of particles 0 and 1 := steps_done); the library
             # calls the loop heartbeat inside the mutex, so no served snapshot may show only one of them.  (The heartbeat call in
             # the prologue of reb_simulation_integrate is outside the mutex - block 0 of the model - and is left read-only.)
-            if p.get("hb_two_writes", True) and int(s.steps_done) != last_sd[0] and s.N >= 2:
-                s.particles[0].r = float(s.steps_done)
+            ncall[0] += 1
+            if p.get("hb_two_writes", True) and s.N >= 2 and (int(s.steps_done) != last_sd[0] or p.get("hb_prologue_too", False)):
+                s.particles[0].r = float(ncall[0])
                 time.sleep(p.get("hb_gap_ms", 0.5) / 1000.0)
-                s.particles[1].r = float(s.steps_done)
+                s.particles[1].r = float(ncall[0])
             last_sd[0] = int(s.steps_done)
             k = phys_key(s)
             raw = stream_of(s)
@@ -486,6 +489,45 @@ def mode_torn(p):
     return res
 
 
+def mode_steps(p):
+    """sim.step()/sim.steps(n) call reb_simulation_step directly (no heartbeat, no mutex): are snapshots served meanwhile boundary states?"""
+    wd = enter_workdir()
+    rng = random.Random(p["seed"])
+    spec = p["spec"]
+    sleep_s = p["sleep_ms"] / 1000.0
+    n = p["nsteps"]
+    def slow(sp):
+        time.sleep(sleep_s)
+    ref = build(spec); ref.additional_forces = slow
+    rec = {phys_key(ref)}
+    for i in range(n):
+        ref.steps(1); rec.add(phys_key(ref))
+    final_ref = phys_key(ref)
+    sim = build(spec); sim.additional_forces = slow
+    port = free_port(rng)
+    sim.start_server(port=port)
+    cl = start_clients(port, wd, [0.0] * p["clients"], [0.0] * p["clients"], False)
+    time.sleep(0.05)
+    if p.get("single_call", True):
+        sim.steps(n)
+    else:
+        for i in range(n): sim.step()
+    got, errs = stop_clients(*cl)
+    sim.stop_server()
+    res = {"served": len(got), "boundaries": len(rec), "unparsable": 0, "not_a_boundary": 0, "examples": [], "trajectory_equal": phys_key(sim) == final_ref}
+    for b in got:
+        try:
+            s = rebound.Simulation(b); k = phys_key(s)
+        except Exception:
+            res["unparsable"] += 1; continue
+        if k not in rec:
+            res["not_a_boundary"] += 1
+            if len(res["examples"]) < 3:
+                res["examples"].append({"t": s.t, "steps_done": int(s.steps_done)})
+    os.chdir("/"); shutil.rmtree(wd, ignore_errors=True)
+    return res
+
+
 def mode_fdclose(p):
     """simulation A serves requests (client in another process) while the main thread saves and re-loads simulation B.
     server.c closes each connection descriptor twice; the second close can hit B's file descriptor."""
@@ -550,7 +592,7 @@ if __name__ == "__main__":
     if mode == "client":
         mode_client(); sys.stdout.flush(); os._exit(0)
     params = json.load(sys.stdin)
-    res = {"conc": mode_conc, "server": mode_server, "torn": mode_torn, "w512": mode_w512, "fdclose": mode_fdclose}[mode](params)
+    res = {"conc": mode_conc, "server": mode_server, "torn": mode_torn, "w512": mode_w512, "fdclose": mode_fdclose, "steps": mode_steps}[mode](params)
     print(json.dumps(res))
     sys.stdout.flush()
     os._exit(0)
